@@ -6,6 +6,7 @@ package c20
 // repository function that stores through its slice parameter) receives it. Appending to it is fine.
 
 import (
+	"fmt"
 	"go/types"
 	"sort"
 	"strings"
@@ -31,7 +32,7 @@ type inputCheck struct {
 	res     *c17.Result
 	aliases map[string]bool
 	skip    map[*types.Func]bool // callees analysed on their own (the pipeline function)
-	memo    map[string]string
+	exempt  map[string]bool      // positions of the stores that build a copy / image (not writes to the input)
 }
 
 // aliasesOf: the input list, what it is appended / sub-sliced / loop-carried into, and its full copies.
@@ -129,11 +130,11 @@ func (ic *inputCheck) check() (string, bool) {
 		for _, ev := range p.Events {
 			switch ev.Kind {
 			case c17.EvStoreElem:
-				if ev.Slice != nil && ic.aliases[c17.SliceID(ev.Slice)] {
+				if ev.Slice != nil && ic.aliases[c17.SliceID(ev.Slice)] && !ic.exempt[fmt.Sprint(ev.Pos)] {
 					return "element [" + short(ic.k.s.Key(ev.Idx), 40) + "] of the input list (" + c17.SliceID(ev.Slice) + ") is overwritten at " + P.Pos(ev.Pos) + ": point i is no longer input point i (and the caller's slice is changed)", true
 				}
 			case c17.EvBulkWrite:
-				if ev.Slice != nil && ic.aliases[c17.SliceID(ev.Slice)] && (ev.Callee == "copy" || ev.Callee == "clear") {
+				if ev.Slice != nil && ic.aliases[c17.SliceID(ev.Slice)] && (ev.Callee == "copy" || ev.Callee == "clear") && !ic.exempt[fmt.Sprint(ev.Pos)] {
 					return "the input list (" + c17.SliceID(ev.Slice) + ") is the destination of " + ev.Callee + " at " + P.Pos(ev.Pos) + ": point i is no longer input point i", true
 				}
 			case c17.EvCall:
@@ -292,8 +293,8 @@ func ssaAll(fn *ssa.Function, f func(ssa.Instruction)) {
 }
 
 // ruleInput records DEL-INPUT for one analysed function.
-func (k *K) ruleInput(r *rec, construct, pos string, res *c17.Result, roots map[string]bool, skip map[*types.Func]bool) {
-	ic := &inputCheck{k: k, res: res, aliases: aliasesOf(res, roots), skip: skip}
+func (k *K) ruleInput(r *rec, construct, pos string, res *c17.Result, roots map[string]bool, skip map[*types.Func]bool, exempt map[string]bool) {
+	ic := &inputCheck{k: k, res: res, aliases: aliasesOf(res, roots), skip: skip, exempt: exempt}
 	msg, bad := ic.check()
 	switch {
 	case msg == "":
